@@ -190,6 +190,9 @@ Global Hint Resolve st_perkey_step : pres_st.
 Lemma st_slot_get sl : pres Rst (slot_get sl). Proof. prim slot_get. Qed.
 Lemma st_slot_set sl v : pres Rst (slot_set sl v). Proof. prim slot_set. Qed.
 Global Hint Resolve st_slot_get st_slot_set : pres_st.
+Lemma st_subscribe o h : pres Rst (subscribe o h). Proof. prim subscribe. Qed.
+Lemma st_unsubscribe o a b : pres Rst (unsubscribe o a b). Proof. prim unsubscribe. Qed.
+Global Hint Resolve st_subscribe st_unsubscribe : pres_st.
 Lemma st_with_handle h k : (forall n, pres Rst (k n)) -> pres Rst (with_handle h k). Proof. intros; unfold with_handle; go_st. Qed.
 Global Hint Extern 1 (pres Rst (with_handle _ _)) => (apply st_with_handle; intros ?; go_st) : pres_st.
 Global Hint Extern 1 (pres Rst (with_var_handle _ _)) => (apply st_with_var_handle; go_st) : pres_st.
@@ -225,9 +228,7 @@ Lemma st_observe n : pres Rst (observe n). Proof. prim observe. Qed.
 Lemma st_add_new_observers fuel : pres Rst (add_new_observers fuel). Proof. prim add_new_observers. Qed.
 Lemma st_unlink_disallowed fuel : pres Rst (unlink_disallowed_observers fuel). Proof. prim unlink_disallowed_observers. Qed.
 Lemma st_disallow o : pres Rst (disallow_future_use o). Proof. prim disallow_future_use. Qed.
-Lemma st_subscribe o h : pres Rst (subscribe o h). Proof. prim subscribe. Qed.
-Lemma st_unsubscribe o a b : pres Rst (unsubscribe o a b). Proof. prim unsubscribe. Qed.
-Global Hint Resolve st_observe st_add_new_observers st_unlink_disallowed st_disallow st_subscribe st_unsubscribe : pres_st.
+Global Hint Resolve st_observe st_add_new_observers st_unlink_disallowed st_disallow : pres_st.
 Lemma st_state_unsubscribe a b : pres Rst (state_unsubscribe a b). Proof. prim state_unsubscribe. Qed.
 Lemma st_node_update_of n : pres Rst (node_update_of n). Proof. prim node_update_of. Qed.
 Global Hint Resolve st_state_unsubscribe st_node_update_of : pres_st.
@@ -339,7 +340,10 @@ Qed.
 Lemma collect_status pins s : st_status (collect pins s).2 = st_status s.
 Proof. done. Qed.
 
-Local Opaque collect step.
+Lemma end_of_op_status s : st_status (end_of_op s) = st_status s.
+Proof. done. Qed.
+
+Local Opaque collect step end_of_op.
 (* ... hence every state of the rest of the history is poisoned *)
 Lemma run_keeps_poison fuel ops : forall st s,
   st_status s <> NotStabilising ->
@@ -349,12 +353,12 @@ Proof.
   assert (st_status (s <| events := [] |>) <> NotStabilising) as Hp0 by done.
   pose proof (step_keeps_poison fuel st o _ Hp0) as Hst.
   destruct (step fuel st o (s <| events := [] |>)) as [r s1] eqn:E. simpl in Hst.
-  assert (st_status (collect [] s1).2 <> NotStabilising) as Hp1 by (rewrite collect_status; congruence).
-  assert (forall st', Forall (fun e => st_status e.2 = st_status s) (run fuel ops st' (collect [] s1).2)) as Hrest.
+  assert (st_status (end_of_op s1) <> NotStabilising) as Hp1 by (rewrite end_of_op_status; congruence).
+  assert (forall st', Forall (fun e => st_status e.2 = st_status s) (run fuel ops st' (end_of_op s1))) as Hrest.
   { intros st'. eapply Forall_impl; [|exact (IH st' _ Hp1)].
-    intros [[? ?] sx] He; simpl in *. rewrite He, collect_status. done. }
+    intros [[? ?] sx] He; simpl in *. rewrite He, end_of_op_status. done. }
   destruct r as [[st' out]| |]; simpl.
-  all: constructor; [simpl; rewrite collect_status; done|apply Hrest].
+  all: constructor; [simpl; rewrite end_of_op_status; done|apply Hrest].
 Qed.
 
 Local Transparent step.
@@ -388,7 +392,7 @@ Proof.
             r' = Ok (st, OutRead (inr ERR_CURRENTLY_STABILISING)) \/ r' = Panic (PModelGap 4)) as Hr.
   { intros o' r' s' Hs' E'. pose proof (step_read_refused fuel st o' _ Hs') as H. rewrite E' in H. exact H. }
   destruct (step fuel st o (s <| events := [] |>)) as [r s1] eqn:E. simpl in Hk.
-  assert (st_status (collect [] s1).2 = Stabilising) as H1 by (rewrite collect_status; congruence).
+  assert (st_status (end_of_op s1) = Stabilising) as H1 by (rewrite end_of_op_status; congruence).
   destruct r as [[st' out]| |]; simpl; (constructor; [|apply IH; done]).
   all: destruct o; try done.
   all: destruct (Hr _ _ _ Hst0 E) as [Hr'|Hr']; simplify_eq; simpl; auto.
